@@ -50,7 +50,9 @@ from allmydata import node as node_mod
 from allmydata.util import base32
 
 V1 = b"http://allmydata.org/tahoe/protocols/storage/v1"
-AVAIL = {"v1": 1000, "v2": 2000, "default": 0, "none": 0}
+CAP = 2 ** 31 - 1      # TLC integers are 32 bit: larger amounts are reported as CAP ("at least 2^31-1")
+# "default": VERSION_DEFAULTS has available-space None, so the answer is its maximum-immutable-share-size (2^32-1)
+AVAIL = {"v1": 1000, "v2": 2000, "default": CAP, "none": 0}
 
 
 def version_dict(kind):
@@ -263,11 +265,25 @@ class World:
         return 0
 
     def tubs_of(self, n):
+        """the tubs made for object n: the ones parented to it (Tub.setServiceParent(server)); should a version of
+        the code parent its tubs elsewhere, the ones asked to connect to the FURL of its announcement"""
         srv = self.objs[n - 1]
+        mine = self.owner_tubs[n]
+        claimed = {id(t) for ts in self.owner_tubs.values() for t in ts}
         for t in self.tubs:
-            if t.parent is srv and t not in self.owner_tubs[n]:
-                self.owner_tubs[n].append(t)
-        return self.owner_tubs[n]
+            if t.parent is srv and id(t) not in claimed:
+                mine.append(t)
+                claimed.add(id(t))
+        if not mine:
+            try:
+                furl = srv.get_announcement().get("anonymous-storage-FURL", "").encode("utf-8")
+            except Exception:
+                furl = b""
+            for t in self.tubs:
+                if furl and id(t) not in claimed and any(rc.furl == furl for rc in t.requests):
+                    mine.append(t)
+                    break
+        return mine
 
     def request_of(self, n):
         reqs = [rc for t in self.tubs_of(n) for rc in t.requests]
@@ -312,11 +328,13 @@ class World:
         for kind in ("v1", "v2"):
             if v == version_dict(kind):
                 return kind
-        try:
-            if str(v.get("application-version", "")).startswith("unknown"):
+        for key in ("application-version", b"application-version"):
+            try:
+                av = v.get(key, "")
+            except Exception:
+                continue
+            if (av.decode("ascii", "replace") if isinstance(av, bytes) else str(av)).startswith("unknown"):
                 return "default"
-        except Exception:
-            pass
         return "?"
 
     def observe(self, order=()):
@@ -328,6 +346,9 @@ class World:
         obs["nobjs"] = len(self.objs)
         obs["known"] = sorted(self.num(s) for s in known)
         obs["connected"] = sorted(self.num(s) for s in b.get_connected_servers())
+        # what peer selection is offered for a random storage index (the order is C32's subject, ServerOrder.tla)
+        psi = bytes(self.rng.getrandbits(8) for _ in range(16))
+        obs["psi"] = [self.num(s) for s in b.get_servers_for_psi(psi)]
         cur = {}
         for s in self.sids:
             hit = [self.num(x) for x in known if x.get_serverid() == self.real_id[s]]
@@ -358,7 +379,7 @@ class World:
                  "quiet": bool(tubs) and all(t.stopped for t in tubs) or (rc is not None and not rc.active)}
             try:
                 sp = srv.get_available_space()
-                o["avail"], o["avail_err"] = (sp if sp is not None else 0), False
+                o["avail"], o["avail_err"] = (min(sp, CAP) if sp is not None else 0), False
             except Exception as e:
                 o["avail"], o["avail_err"], o["avail_exc"] = 0, True, type(e).__name__
             objs.append(o)
